@@ -50,6 +50,10 @@ def make_ops(rng, cfg, profile, tier):
             ops.append({'op': 'REBUILD', 'a': [rng.choice([1, 7, 90267]), rng.choice([2, 4, 6]), rng.randrange(0, 50)]})
         else:
             ops.append({'op': 'RESERVED', 'a': [rng.randrange(len(NATIVE))]})
+    if rng.random() < 0.3:
+        ops.insert(rng.randrange(len(ops) + 1), {'op': 'REREGISTER', 'a': [rng.randrange(1, 5)]})
+    if rng.random() < 0.3:
+        ops.insert(rng.randrange(len(ops) + 1), {'op': 'EVAL_KEPT', 'a': [rng.choice([6, 10]), rng.choice([2, 4]), rng.randrange(4)]})
     for _ in range(rng.randrange(0, 3)):
         ops.insert(rng.randrange(len(ops) + 1),
                    {'op': rng.choice(['INTEGRATE', 'DERIVE']), 'a': [rng.randrange(4), rng.randrange(3), rng.random() < 0.5]})
@@ -110,6 +114,8 @@ class Session:
                                    'x1': [round(rng.uniform(-1, 1), 2) for _ in range(n)]})
         self.rows = [{c: float(self.table[c].iloc[i]) for c in self.table.columns} for i in range(n)]
         self.calls = []   # (type, shape, array copy)
+        self.versions_called = []
+        self.udet_version = 0
         sess = self
         # recording wrappers, in place, on the native generators (a dict read at call time)
         self._orig = {}
@@ -128,6 +134,7 @@ class Session:
         def udet(sample_size, number_of_draws):
             out = np.array([[((i * 5 + r * 3) % 7) / 7.0 - 0.4 for r in range(number_of_draws)] for i in range(sample_size)])
             sess.calls.append(('UDET', (sample_size, number_of_draws), out.copy()))
+            sess.versions_called.append(('UDET', 0))
             return out
 
         def urnd(sample_size, number_of_draws):
@@ -316,6 +323,50 @@ class Session:
                 ctx.fail('I10.seed', f'two constructions with seed {seed} give likelihoods {l1!r} and {l2!r}')
             ctx.probe('reconstruction with the same non-zero seed')
             ctx.log(kind, seed, R, fhex(l1))
+        elif kind == 'REREGISTER':
+            # the user registers ANOTHER generator under a name already used: from now on that one produces the series
+            ver = a[0]
+            self.udet_version = ver
+            sess = self
+
+            def udet_v(sample_size, number_of_draws, ver=ver):
+                out = np.array([[((i * 3 + r * 5 + ver) % 9) / 9.0 - 0.45 for r in range(number_of_draws)]
+                                for i in range(sample_size)])
+                sess.calls.append(('UDET', (sample_size, number_of_draws), out.copy()))
+                sess.versions_called.append(('UDET', ver))
+                return out
+            self.user = dict(self.user, UDET=(udet_v, f'deterministic v{ver}'))
+            self.db.set_random_number_generators(dict(self.user))
+            if any(t == 'UDET' for _, t in self.cfg['vars']):
+                inner = self.build(self.integrand())
+                e = ex.MonteCarlo(inner)
+                self.calls.clear()
+                self.versions_called.clear()
+                R = self.cfg['R']
+                betas = self.betas_at(0)
+                got = e.get_value_c(database=self.db, betas=betas, number_of_draws=R, aggregation=False, prepare_ids=True)
+                if any(v != ('UDET', ver) for v in self.versions_called if v[0] == 'UDET') or not self.versions_called:
+                    ctx.fail('I10.registered', f'after registering another generator for type UDET the series were produced by '
+                                               f'{sorted(set(self.versions_called))}, not by the registered one (version {ver})')
+                self.match_some('Monte-Carlo value after re-registering a generator', list(got),
+                                self.generations(list(self.calls), R), betas, R)
+                ctx.probe('generator re-registered under the same name')
+            ctx.log(kind, ver)
+        elif kind == 'EVAL_KEPT':
+            # the formula is prepared once with R draws; evaluations that keep that numbering (prepare_ids=False) use
+            # the R draws that were generated, whatever number_of_draws they are called with
+            R, R2, k = a
+            betas = self.betas_at(k)
+            e = ex.MonteCarlo(self.build(self.integrand()))
+            self.calls.clear()
+            e.prepare(self.db, R)
+            calls = list(self.calls)
+            gens = self.generations(calls, R)
+            got = e.get_value_c(database=self.db, betas=betas, number_of_draws=R2, aggregation=False, prepare_ids=False)
+            self.match_some(f'Monte-Carlo value of a formula prepared with {R} draws and evaluated with number_of_draws={R2}',
+                            list(got), gens, betas, R)
+            e.set_id_manager(None)
+            ctx.log(kind, R, R2)
         elif kind == 'INTEGRATE':
             # numerical integration over the real line of a smooth, normally decaying integrand (sampled:
             # two integrand families; reference = adaptive quadrature on [-14, 14])
